@@ -562,4 +562,10 @@ def r16_12(ctx):
     ctx.floor(n, 1, "values interpolated into brace templates")
 
 
-RULES = [r16_1, r16_2, r16_3, r16_4, r16_5, r16_6, r16_7, r16_8, r16_9, r16_10, r16_11, r16_12]
+def r16_13(ctx):
+    from .c13 import r13_1
+    from .common import borrow
+    borrow(ctx, r13_1, "R13.1", "R16.13", " [the fits-on-one-line decision measures repr strings with cell_len: the per-character shortcut must agree with the width table, or a string with combining marks is expanded although its repr fits]")
+
+
+RULES = [r16_1, r16_2, r16_3, r16_4, r16_5, r16_6, r16_7, r16_8, r16_9, r16_10, r16_11, r16_12, r16_13]
